@@ -1,14 +1,13 @@
 #!/usr/bin/env bash
 # setup_cmd: builds the framework offline from files on disk (harness workspaces + preload shim).
+# Only the packages of the checks registered in MANIFEST.json are built (each check's own command
+# rebuilds incrementally from /repo's working tree anyway).
 set -e
 cd "$(dirname "$0")"
 export CARGO_NET_OFFLINE=true
 mkdir -p evidence/replay logs
-if [ -f preload/getrandom_shim.c ]; then
-  gcc -O2 -shared -fPIC -o preload/getrandom_shim.so preload/getrandom_shim.c
-fi
-(cd harness && cargo build --release --offline --workspace 2>&1 | tail -3)
-if [ -d harness-sched ]; then
-  (cd harness-sched && cargo build --release --offline --workspace 2>&1 | tail -3)
-fi
+gcc -O2 -shared -fPIC -o preload/getrandom_shim.so preload/getrandom_shim.c
+pkgs=$(python3 -c "import json; print(' '.join('-p '+c['property_id'].lower() for c in json.load(open('MANIFEST.json'))['checks']))")
+(cd harness && cargo build --release --offline $pkgs 2>&1 | tail -3)
+(cd harness-sched && cargo build --release --offline -p c20s 2>&1 | tail -3)
 echo "setup done"
